@@ -19,7 +19,15 @@ Oracle, after every operation (dry runs included), whatever it returned or raise
     and mode of every file in the working tree (and in the user's own linked worktree);
   * no-temp-left: the case-private `tempfile.tempdir` holds no griffe-worktree-* entry;
   * objects-usable (load_git success only): for every module / class / function of the returned tree, `.source` — read after
-    the checkout is gone — equals `git show R:<path>` sliced by the object's span (dedented), and is not empty.
+    the checkout is gone — equals `git show R:<path>` sliced by the object's span (dedented), and is not empty. With
+    resolve_aliases=True every alias of the returned package whose target exists inside the repository at R (internal
+    re-exports; `sfunc` re-exported from a second top-level package of the same repository — the private sibling `_<pkg>`
+    loaded on demand with resolve_external None/True, or a public sibling with resolve_external=True) is resolved to that
+    target, and `.parameters`, `.lines`, `.source` read through the alias equal `git show R:<path>` sliced by the target's span;
+  * check-verdict (check returned 0/1, static, explicit `against`): the exit code equals the one implied by an in-process
+    `find_breaking_changes` of two ordinary `griffe.load`s of the same two trees exported with `git archive` (the working
+    tree itself when there is no base_ref) — a metamorphic relation: going through temporary checkouts must not change
+    the verdict.
 """
 
 from __future__ import annotations
@@ -44,8 +52,10 @@ LEVEL = "fault_enumeration"
 RULE = (
     "Hypothesis-generated cases: a scratch git repository (2-4 commits of a 4-module package with per-commit API variants, a commit "
     "with a syntax error in the top-level / a sub-module or without the package, 1-3 tags, 1-3 branches incl. slashed names, HEAD on "
-    "main/branch/detached, optional modified+staged+untracked+stashed user work, optional user worktree, optional .gitignore) and 1-3 "
+    "main/branch/detached, optional modified+staged+untracked+stashed user work, optional user worktree, optional .gitignore, optionally a "
+    "second top-level package (private sibling _<pkg> or public sibling) that the first re-exports a function from) and 1-3 "
     "operations load_git / check with ref in {tag, branch, slashed branch, sha, short sha, HEAD, HEAD~1, main, unknown}, force_inspection, "
+    "resolve_aliases, resolve_external in {None,True,False}, "
     "and at most one fault (extension raising Exception/KeyboardInterrupt at hook call k of N counted in a dry run; non-zero exit/OSError "
     "at the i-th pre-body git subprocess; pre-existing griffe-<ref> branch). evaluations = operations executed and judged (dry runs "
     "included). non-trivial operation = a fault was injected and reached, or the operation failed, or the working tree is dirty, or the "
@@ -275,6 +285,7 @@ def _execute(op, plan, info, case, tmpdir: Path, ext_k, sub_plan) -> dict:
                     extensions=griffe.load_extensions(ext),
                     force_inspection=plan["force"],
                     resolve_aliases=bool(op["resolve_aliases"]),
+                    resolve_external=op.get("external"),
                 )
             else:
                 out["result"] = griffe.check(
@@ -309,6 +320,8 @@ def _execute(op, plan, info, case, tmpdir: Path, ext_k, sub_plan) -> dict:
                 os.environ[k] = v
         sys.path[:] = saved["path"]
         _purge(name)
+        if info.get("sibling"):
+            _purge(info["sibling"])
     out.update(hooks=ext_state["n"], ext_fired=ext_state["fired"], trace=proxy.trace, sub_injected=proxy.injected, stderr=captured.getvalue()[-400:])
     return out
 
@@ -336,10 +349,7 @@ def _check_sources(result, plan, info, what: str) -> list[Fail]:
             fp = obj.filepath
             rel = None if isinstance(fp, list) else _relpath_in_checkout(fp)
             if rel is not None and (kind == "module" or (obj.lineno is not None and obj.endlineno is not None)):
-                if rel not in cache:
-                    p = _real_subprocess.run(["git", "-C", str(repo), "show", f"{plan['ref']}:{rel}"], capture_output=True, text=True, check=False, env={**os.environ, **G.GIT_ENV})
-                    cache[rel] = p.stdout.splitlines() if p.returncode == 0 else None
-                lines = cache[rel]
+                lines = _git_show_lines(repo, plan["ref"], rel, cache)
                 if lines is not None:
                     expected = dedent("\n".join(lines if kind == "module" else lines[obj.lineno - 1 : obj.endlineno]))
                     seen += 1
@@ -367,14 +377,146 @@ def _check_sources(result, plan, info, what: str) -> list[Fail]:
     return fails
 
 
+def _expected_aliases(op, plan, info, case) -> dict[str, str]:
+    """Aliases of the returned top-level package that are resolvable inside the repository at the ref, by construction of
+    the generated sources: name -> expected canonical target path."""
+    if plan["ref_commit"] is None:
+        return {}
+    state = case["commits"][plan["ref_commit"]]["state"]
+    name, sib = info["name"], info.get("sibling")
+    out = {}
+    if state in ("ok", "syntax_sub"):
+        out["Klass"] = f"{name}.sub.b.K"
+    if state == "ok":
+        out["f0"] = f"{name}.a.f0"
+    ext = op.get("external")
+    if sib and state in ("ok", "syntax_sub"):
+        on_demand = (case.get("sibling") == "private" and ext in (None, True)) or (case.get("sibling") == "public" and ext is True)
+        if on_demand:
+            out["sfunc"] = f"{sib}.impl.sfunc"
+    return out
+
+
+def _git_show_lines(repo, ref: str, rel: str, cache: dict):
+    if rel not in cache:
+        p = _real_subprocess.run(["git", "-C", str(repo), "show", f"{ref}:{rel}"], capture_output=True, text=True, check=False, env={**os.environ, **G.GIT_ENV})
+        cache[rel] = p.stdout.splitlines() if p.returncode == 0 else None
+    return cache[rel]
+
+
+def _check_aliases(result, op, plan, info, case, what: str) -> list[Fail]:
+    """Every alias that is resolvable inside the repository must be resolved in the returned tree, and its final target
+    must be as usable as a directly loaded object: parameters, lines and source (== git show sliced by the span)."""
+    fails: list[Fail] = []
+    cache: dict = {}
+    for alias_name, target_path in _expected_aliases(op, plan, info, case).items():
+        where = f"{what}: alias {info['name']}.{alias_name} -> {target_path}"
+        try:
+            member = result.members[alias_name]
+        except KeyError:
+            fails.append(Fail("objects-usable", "alias-missing", f"{where}: no such member in the returned package"))
+            continue
+        if not member.is_alias:
+            continue  # (inspection may materialise the object itself; then _check_sources covers it)
+        try:
+            target = member.final_target
+            kind = target.kind.value
+            lines = member.lines
+            source = member.source
+            if kind == "function":
+                [p.name for p in member.parameters]
+            lineno, endlineno, fp = target.lineno, target.endlineno, target.filepath
+        except Exception as exc:  # noqa: BLE001
+            fails.append(
+                Fail(
+                    "objects-usable",
+                    f"alias-unusable:{type(exc).__name__}[{'sibling' if alias_name == 'sfunc' else 'internal'}]",
+                    f"{where}: the target exists at {plan['ref']!r} inside the repository (resolve_external={op.get('external')!r}), yet using the returned alias raises {type(exc).__name__}: {str(exc)[:160]}",
+                )
+            )
+            continue
+        if target.path != target_path:
+            fails.append(Fail("objects-usable", "alias-wrong-target", f"{where}: resolved to {target.path}"))
+            continue
+        rel = None if isinstance(fp, list) else _relpath_in_checkout(fp)
+        if rel is None or lineno is None or endlineno is None:
+            continue
+        shown = _git_show_lines(info["repo"], plan["ref"], rel, cache)
+        if shown is None:
+            continue
+        expected = dedent("\n".join(shown[lineno - 1 : endlineno]))
+        if source != expected or lines != shown[lineno - 1 : endlineno]:
+            fails.append(
+                Fail(
+                    "objects-usable",
+                    "alias-source-differs",
+                    f"{where}: .source through the alias is {source[:80]!r}, `git show {plan['ref']}:{rel}` lines {lineno}-{endlineno} give {expected[:80]!r}",
+                )
+            )
+    return fails
+
+
+def _export(repo, ref: str, dest: Path) -> bool:
+    import tarfile
+
+    p = _real_subprocess.run(["git", "-C", str(repo), "archive", "--format=tar", ref], capture_output=True, check=False, env={**os.environ, **G.GIT_ENV})
+    if p.returncode:
+        return False
+    dest.mkdir(parents=True)
+    with tarfile.open(fileobj=io.BytesIO(p.stdout)) as tf:
+        tf.extractall(dest, filter="data")
+    return True
+
+
+def _check_verdict(op, plan, info, case, run, wd: Path, what: str) -> tuple[list[Fail], str]:
+    """check(): the exit code must be what an in-process diff of two ordinary `griffe.load`s of the same two trees gives
+    (trees exported with `git archive` into the case's scratch dir; the working tree itself when no base_ref is given)."""
+    import griffe
+
+    name = info["name"]
+    _COUNTER[0] += 1
+    exp = wd / f"export{_COUNTER[0]}"
+    src = case["srcdir"]
+    try:
+        if not _export(info["repo"], plan["ref"], exp / "old"):
+            return [], "reference-unavailable"
+        if plan["base"] is not None:
+            if not _export(info["repo"], plan["base"], exp / "new"):
+                return [], "reference-unavailable"
+            new_root = exp / "new" / src
+        else:
+            new_root = info["src"]
+        try:
+            kw = {"try_relative_path": False, "resolve_aliases": True, "resolve_external": None}
+            old = griffe.load(name, search_paths=[str(exp / "old" / src)], **kw)
+            new = griffe.load(name, search_paths=[str(new_root)], **kw)
+            breakages = list(griffe.find_breaking_changes(old, new))
+        except Exception:  # noqa: BLE001
+            return [], "reference-failed"
+    finally:
+        shutil.rmtree(exp, ignore_errors=True)
+    expected = 1 if breakages else 0
+    if run["result"] != expected:
+        first = breakages[0].kind.name + " " + breakages[0].obj.path if breakages else "-"
+        return [
+            Fail(
+                "check-verdict",
+                f"exit-{run['result']}-expected-{expected}",
+                f"{what}: check returned {run['result']}, an in-process diff of ordinary loads of `git archive {plan['ref']}` and "
+                f"{'`git archive ' + plan['base'] + '`' if plan['base'] else 'the working tree'} finds {len(breakages)} breakage(s) (first: {first})",
+            )
+        ], "compared"
+    return [], "compared"
+
+
 def _what(op, plan, info) -> str:
     name = info["name"]
     if op["op"] == "load_git":
-        return f"load_git({name!r}, ref={plan['ref']!r}, force_inspection={plan['force']}, resolve_aliases={bool(op['resolve_aliases'])})"
+        return f"load_git({name!r}, ref={plan['ref']!r}, force_inspection={plan['force']}, resolve_aliases={bool(op['resolve_aliases'])}, resolve_external={op.get('external')!r})"
     return f"check({name!r}, against={None if plan['against_none'] else plan['ref']!r}, base_ref={plan['base']!r}, force_inspection={plan['force']})"
 
 
-def _judge(op, plan, info, before, run, tmpdir: Path, tag: str) -> list[Fail]:
+def _judge(op, plan, info, before, run, tmpdir: Path, tag: str, case=None, wd: Path | None = None) -> list[Fail]:
     fails: list[Fail] = []
     what = _what(op, plan, info) + (f" [{tag}]" if tag else "") + f" -> {run['outcome']}"
     after = snapshot(info)
@@ -392,6 +534,16 @@ def _judge(op, plan, info, before, run, tmpdir: Path, tag: str) -> list[Fail]:
         fails.append(Fail("no-temp-left", "worktree-dir-left", f"{what}: temporary checkout left behind in the temp dir: {left[:3]}"))
     if op["op"] == "load_git" and run["outcome"] == "ok" and run["result"] is not None:
         fails += _check_sources(run["result"], plan, info, what)
+        if case is not None and op["resolve_aliases"]:
+            fails += _check_aliases(run["result"], op, plan, info, case, what)
+            run["aliases_checked"] = sorted(_expected_aliases(op, plan, info, case))
+    if (
+        op["op"] == "check" and case is not None and wd is not None and run["outcome"] == "ok" and run["result"] in (0, 1)
+        and not plan["force"] and not plan["against_none"] and plan["ref_commit"] is not None and not diff
+    ):
+        vf, status = _check_verdict(op, plan, info, case, run, wd, what)
+        fails += vf
+        run["verdict"] = status
     return fails
 
 
@@ -421,7 +573,7 @@ def check_case(case) -> list[Fail]:
                 # dry run: count the hook calls of this very operation, judged like any other operation
                 before = snapshot(info)
                 dry = _execute(op, plan, info, case, tmpdir, None, None)
-                f0 = _judge(op, plan, info, before, dry, tmpdir, "dry run")
+                f0 = _judge(op, plan, info, before, dry, tmpdir, "dry run", case, wd)
                 fails += f0
                 runs.append(("dry", dry, f0))
                 if dry["hooks"] > 0 and not f0:
@@ -437,7 +589,7 @@ def check_case(case) -> list[Fail]:
                     tag = f"{fault['type']} at hook call {ext_k}/{runs[0][1]['hooks']}"
                 elif sub_plan is not None:
                     tag = f"{fault['type']} at git call {sub_plan['i']}" + ("" if run["sub_injected"] else " (not reached)")
-                f1 = _judge(op, plan, info, before, run, tmpdir, tag)
+                f1 = _judge(op, plan, info, before, run, tmpdir, tag, case, wd)
                 fails += f1
                 runs.append(("main", run, f1))
             polluted = any(f.clause in ("repo-unchanged", "no-temp-left") for _r, _run, fl in runs for f in fl)
@@ -459,6 +611,12 @@ def check_case(case) -> list[Fail]:
                     classes.append("preexisting-griffe-branch")
                 if plan["ref_commit"] is not None:
                     classes.append("commit-state-at-ref:" + case["commits"][plan["ref_commit"]]["state"])
+                if "sfunc" in run.get("aliases_checked", ()):
+                    classes.append(f"alias-into-sibling-checked:{case.get('sibling')}:external={op.get('external')}")
+                elif run.get("aliases_checked"):
+                    classes.append("internal-aliases-checked")
+                if run.get("verdict"):
+                    classes.append("check:verdict-" + run["verdict"] + (f":exit{run['result']}" if run["verdict"] == "compared" else ""))
                 if op["op"] == "check":
                     classes.append("check:base_ref" if plan["base"] else "check:working-tree")
                     if plan["against_none"]:
@@ -490,6 +648,7 @@ def _case_classes(case) -> list[str]:
         cl.append("user-worktree")
     if case.get("gitignore"):
         cl.append("gitignore-pycache")
+    cl.append(f"sibling-package:{case.get('sibling')}")
     if any("/" in G.BRANCH_NAMES[ni % len(G.BRANCH_NAMES)] for ni, _ in case["branches"]):
         cl.append("has-slashed-branch")
     return cl
@@ -517,4 +676,4 @@ def run_shard(ctx) -> None:
         return key, [*classes, *_case_classes(case)], samples
 
     strat, salt = strategy(ctx)
-    ctx.run_hypothesis(strat, check_case, max_examples=ctx.scale(24, 1200), describe=describe, salt=salt)
+    ctx.run_hypothesis(strat, check_case, max_examples=ctx.scale(32, 1200), describe=describe, salt=salt)
